@@ -226,7 +226,14 @@ func runC09(c *fw.Ctx) {
 			for _, f := range p.Files {
 				srcs[f.Name] = f.Src
 			}
-			files, info, pkg, err := p.Check(srcs, p.PkgPath)
+			// every third program is itself a vendored package: its own path has a vendor element
+			// (the decorator is told that path; local identifiers still get none)
+			pkgPath := p.PkgPath
+			if i%3 == 2 {
+				pkgPath = "ex.com/host/vendor/" + p.PkgPath
+				c.Count("programs_with_vendored_local_path", 1)
+			}
+			files, info, pkg, err := p.Check(srcs, pkgPath)
 			if err != nil {
 				c.Count("inconclusive_program_rejected_by_go_types", 1)
 				return
@@ -234,7 +241,7 @@ func runC09(c *fw.Ctx) {
 			c.Count("programs", 1)
 			for k, af := range files {
 				for _, resolveLocal := range []bool{false, true} {
-					d := decorator.NewDecoratorWithImports(p.Fset, p.PkgPath, gotypes.New(info.Uses))
+					d := decorator.NewDecoratorWithImports(p.Fset, pkgPath, gotypes.New(info.Uses))
 					d.ResolveLocalPath = resolveLocal
 					df, err := d.DecorateFile(af)
 					if err != nil {
